@@ -61,6 +61,8 @@ pub enum Act {
     /// (C02) try to emit a message for an instant `back_ns` before the current one: mode 0 `send_at` on gate `gate`,
     /// mode 1 `schedule_at`. The call must be rejected with a panic, which the handler catches itself.
     SendPast { gate: u32, back_ns: u64, mode: u8 },
+    /// log what the global topology view answers: the shortest-path first hops from this module to every other module
+    QueryTopology,
 }
 
 #[derive(Serialize, Deserialize, Clone, Debug, PartialEq, Eq, Hash)]
@@ -277,6 +279,9 @@ pub enum Ev {
     Active { active: bool },
     /// an attempt to emit a message for an instant before the current one
     PastSend { uid: u32, mode: u8, back_ns: u64, accepted: bool },
+    /// answer of `Topology::current().dijkstra(own path)`: number of destinations, hash over the sorted
+    /// (destination, first-hop gate, first-hop peer) triples; `n == u32::MAX`: the call panicked
+    Topo { n: u32, h: u64 },
 }
 
 #[derive(Clone, Debug, PartialEq, Eq, Hash, Serialize)]
@@ -458,6 +463,33 @@ impl ScriptMod {
             Act::Random => {
                 let v: u64 = random();
                 rec(self.idx, Ev::Rand { v });
+            }
+            Act::QueryTopology => {
+                let me = current().path();
+                let r = std::panic::catch_unwind(std::panic::AssertUnwindSafe(|| {
+                    let topo = des::net::topology::Topology::current();
+                    let map = topo.dijkstra(me);
+                    let mut v: Vec<(String, String, String)> = map
+                        .iter()
+                        .map(|(dest, e)| (dest.as_str().to_string(), e.from.gate().path().as_str().to_string(), e.to.module().path().as_str().to_string()))
+                        .collect();
+                    v.sort();
+                    let mut h = crate::common::TraceHash::default();
+                    for (a, b, c) in &v {
+                        for x in a.bytes().chain(b.bytes()).chain(c.bytes()) {
+                            h.push(u64::from(x));
+                        }
+                        h.push(0x1_0000);
+                    }
+                    (v.len() as u32, h.0)
+                }));
+                match r {
+                    Ok((n, h)) => rec(self.idx, Ev::Topo { n, h }),
+                    Err(_) => {
+                        crate::clear_panic();
+                        rec(self.idx, Ev::Topo { n: u32::MAX, h: 0 });
+                    }
+                }
             }
             Act::SendPast { gate, back_ns, mode } => {
                 let now = SimTime::now().as_nanos();
